@@ -195,14 +195,22 @@ def stage_tables(work, tier, seed):
     table types; CanonLR1.Faithful etc. evaluated by TLC (CheckTables)."""
     cases = []
     gtext = {}
+    ntwin = 0
     for gid, g, tags in corpus(tier, seed):
-        text = G.render(g)
+        text = G.render(g, assigns=True)
+        # a decorated text (EMPTY references, named / bool assignments) is compiled next to the
+        # undecorated text of the same grammar: the two automata have to be the same (C09)
+        twin = G.render(g, plain=True)
         gtext[gid] = text
         for tt in ("lalr", "pager", "rn"):
-            cases.append({"id": "%s|%s" % (gid, tt), "grammar": text,
-                          "cfg": {"algo": "glr", "tt": tt, "raw": True, "ps": False, "pse": False},
-                          "meta": dict({"nodis": False, "plain": False},
-                                       **({"abs": G.abstract_of(g)} if tt == "pager" else {}))})
+            c = {"id": "%s|%s" % (gid, tt), "grammar": text,
+                 "cfg": {"algo": "glr", "tt": tt, "raw": True, "ps": False, "pse": False},
+                 "meta": dict({"nodis": False, "plain": False},
+                              **({"abs": G.abstract_of(g)} if tt == "pager" else {}))}
+            if twin != text and "meta" not in tags:
+                c["twin_grammar"] = twin
+                ntwin += 1
+            cases.append(c)
     for path, text in repo_grammars(tier):
         gid = "repo:" + path
         gtext[gid] = text
@@ -222,7 +230,7 @@ def stage_tables(work, tier, seed):
             "nautomata_reproduced": sum(1 for v in verdicts if not v.get("autodiff") and v["nstates"] <= 40),
             "errs": [dict(id=e["id"], cls=e["class"], msg=e["msg"][:200]) for e in errs],
             "states": sum(r["distinct"] for r in rs), "transitions": sum(r["states"] for r in rs),
-            "ncases": len(cases), "ndumps": len(verdicts),
+            "ncases": len(cases), "ndumps": len(verdicts), "ntwins": ntwin,
             "samples": [dict(id=v["id"], nstates=v["nstates"], nconf=v["nconf"], lalr1=v["lalr1"],
                              grammar=gtext[v["id"].rsplit("|", 1)[0]]) for v in verdicts[:3]]}
 
@@ -1236,12 +1244,16 @@ def stage_pipeline(work, tier, seed):
         cli_ids = [rid for n, rid in enumerate(cli_ids) if n % 3 == 0]
     with ThreadPoolExecutor(max_workers=run.NCPU) as ex:
         recs += list(ex.map(cli, cli_ids))
+    recs += path_cases(work, rc)
     rp = work.path("pipeline", "recs.ndjson")
     with open(rp, "w") as f:
         for r in recs:
             f.write(json.dumps(r) + "\n")
     r = run.run_tlc(work, "CheckPipeline", "CheckPipeline.cfg", {"RECS": rp})
     mc = run.run_tlc(work, "MC_Pipeline", "MC_Pipeline.cfg", {}, workers=4)
+    mcp = run.run_tlc(work, "MC_Paths", "MC_Paths.cfg", {}, workers=4)
+    mc = {"distinct": mc["distinct"] + mcp["distinct"], "states": mc["states"] + mcp["states"],
+          "out": mc["out"] if "No error has been found" in mcp["out"] else mcp["out"]}
     verdicts = r["verdicts"]
     import collections
     cls = collections.Counter((v["outcome"], v["class"]) for v in verdicts)
@@ -1250,8 +1262,100 @@ def stage_pipeline(work, tier, seed):
             "states": r["distinct"] + mc["distinct"], "transitions": r["states"] + mc["states"],
             "mc_pipeline_ok": "No error has been found" in mc["out"],
             "ncases": len(recs), "ntraces": len(verdicts), "outcomes": {"%s/%s" % k: v for k, v in cls.items()},
+            "divergences": ["Paths model differs: %s %s" % (v["id"], v["where"]) for v in verdicts if v.get("where")][:20],
+            "npath": sum(1 for x in recs if "path" in x),
             "samples": [dict(id=v["id"], via=v["via"], outcome=v["outcome"], cls=v["class"]) for v in verdicts[:200:45]]}
 
+
+
+PATH_NONE = {"abs": False, "c": ["<none>"]}
+
+
+def path_cases(work, rc):
+    """C16 over WHERE the grammar is and where the output goes (settings.rs computes the output
+    directory from the grammar path as written, the root dir and the output roots): every
+    combination of working directory, way of naming the grammar, root dir and output root,
+    through the library API and through rcomp (root dir = CARGO_MANIFEST_DIR there)."""
+    import subprocess
+    from concurrent.futures import ThreadPoolExecutor
+    base = os.path.dirname(work.path("pipeline", "paths", "x"))
+    forms = {"abs": ([], True, ["d", "g.rustemo"]), "bare": (["d"], False, ["g.rustemo"]),
+             "dot": (["d"], False, [".", "g.rustemo"]), "dotdot": (["d", "sub"], False, ["..", "g.rustemo"]),
+             "nested": ([], False, ["d", "g.rustemo"]), "updown": (["d"], False, ["sub", "..", "g.rustemo"]),
+             "deep": ([], False, ["d", "sub", "..", "g.rustemo"])}
+    docs = {"fine": BASE_DOC, "broken": "S: A Tb | ;;\nterminals\nTa 'a';\n"}
+    jobs = []
+    for fname, (cwd, gabs, gc) in sorted(forms.items()):
+        for root in ("none", "parent", "cwd", "other", "text"):
+            for out in ("none", "abs", "rel"):
+                for via in ("api", "cli"):
+                    for dname in (("fine", "broken") if out == "abs" else ("fine",)):
+                        jobs.append((fname, cwd, gabs, gc, root, out, via, dname))
+
+    def one(job):
+        fname, cwd, gabs, gc, root, out, via, dname = job
+        cid = "path:%s/root=%s/out=%s/%s|%s" % (fname, root, out, dname, via)
+        B = os.path.join(base, "%s_%s_%s_%s_%s" % (fname, root, out, dname, via))
+        for sub in ("d/sub", "other"):
+            os.makedirs(os.path.join(B, sub), exist_ok=True)
+        with open(os.path.join(B, "d", "g.rustemo"), "w") as f:
+            f.write(docs[dname])
+        wd = os.path.join(B, *cwd)
+        gpath = os.path.join(B, *gc) if gabs else os.path.join(*gc)
+        if gc[0] == "." and not gabs:
+            gpath = "./" + os.path.join(*gc[1:])
+        g = {"abs": gabs, "c": gc}
+        parent = {"abs": gabs, "c": gc[:-1]}
+        rootp = {"none": PATH_NONE, "parent": {"abs": True, "c": ["d"]}, "cwd": {"abs": True, "c": cwd},
+                 "other": {"abs": True, "c": ["other"]}, "text": parent}[root]
+        outp = {"none": PATH_NONE, "abs": {"abs": True, "c": ["out"]}, "rel": {"abs": False, "c": ["out"]}}[out]
+
+        def real(p):
+            if p is PATH_NONE:
+                return None
+            r_ = os.path.join(B, *p["c"]) if p["abs"] else (os.path.join(*p["c"]) if p["c"] else "")
+            if p["c"] and p["c"][0] == "." and not p["abs"]:
+                r_ = "." if len(p["c"]) == 1 else "./" + os.path.join(*p["c"][1:])
+            return r_
+        env = run.clean_env()
+        try:
+            if via == "api":
+                rq = os.path.join(B, "req.json")
+                req = {"grammar_path": gpath, "settings": {"builder": "generic", "force": True},
+                       "result_path": os.path.join(B, "res.json"), "root_dir": real(rootp)}
+                if real(outp) is not None:
+                    req["out_dir"] = req["out_dir_actions"] = real(outp)
+                json.dump(req, open(rq, "w"))
+                subprocess.run([run.vhist_bin(), "api", rq], capture_output=True, text=True, env=env, cwd=wd, timeout=120)
+                res = json.load(open(os.path.join(B, "res.json"))) if os.path.exists(os.path.join(B, "res.json")) \
+                    else {"outcome": "crash", "msg": ""}
+                outcome, msg = res["outcome"], res.get("msg", "")[:200]
+            else:
+                args = [rc, gpath, "-b", "generic"]
+                if real(outp) is not None:
+                    args += ["-o", real(outp), "-a", real(outp)]
+                if real(rootp) is not None:
+                    env["CARGO_MANIFEST_DIR"] = real(rootp)
+                r = subprocess.run(args, capture_output=True, text=True, env=env, cwd=wd, timeout=120)
+                o = r.stdout + r.stderr
+                outcome = "ok" if r.returncode == 0 and "not generated" not in o else \
+                    ("err" if r.returncode == 0 else "panic")
+                import re as _re
+                mm = _re.search(r"panicked at ([^\n]*)\n([^\n]*)", o)
+                msg = (mm.group(1) + " " + mm.group(2))[:200] if mm else ""
+        except subprocess.TimeoutExpired:
+            outcome, msg = "hang", ""
+        found = []
+        for dp, dn, fn in os.walk(B):
+            if "g.rs" in fn:
+                rel = os.path.relpath(dp, B)
+                found.append([] if rel == "." else rel.split(os.sep))
+        return {"id": cid, "via": via, "known": dname == "broken",
+                "doc": FINE_DOC if dname == "fine" else dict(FINE_DOC, syntax=False),
+                "algo": "lr", "lexer": "default", "outcome": outcome, "class": "syntax" if outcome == "err" and dname == "broken" else "",
+                "msg": msg, "path": {"cwd": cwd, "g": g, "root": rootp, "out": outp}, "found": sorted(found)}
+    with ThreadPoolExecutor(max_workers=run.NCPU) as ex:
+        return list(ex.map(one, jobs))
 
 
 REGEN_GRAMMARS = {
@@ -1450,10 +1554,20 @@ def cli_args(v, out):
     return a
 
 
-def api_settings(v):
+def api_settings(v, minimal=False):
+    """The builder calls of an API user.  minimal=False: every setter, in the order rcomp
+    calls them; minimal=True: only the setters whose value is not the documented default
+    (what a build.rs usually looks like: an LR user never calls parser_algo)."""
     st = dict(algo=v["algo"], ps=v["ps"], pse=v["pse"], gen=v["gen"], lexer=v["lexer"], builder=v["builder"],
               loc_info=v["loc_info"], fancy=v["fancy"], partial=v["partial"], skip_ws=v["skip_ws"],
               actions=v["actions"], force=False)
+    if minimal:
+        # GLR changes the defaults of both shift preferences to off; they stay explicit there
+        dflt = dict(algo="lr", gen="functions", lexer="default", builder="default", loc_info=False, fancy=False,
+                    partial=False, skip_ws=True, actions=True)
+        if v["algo"] == "lr":
+            dflt.update(ps=False, pse=True)
+        st = {k: x for k, x in st.items() if k not in dflt or dflt[k] != x}
     if v.get("input", "str") != "str":
         st["input_type"] = v["input"]
     if v.get("dot"):
@@ -1525,8 +1639,8 @@ def stage_determinism(work, tier, seed):
         try:
             if via == "api":
                 rq = os.path.join(d, "req.json")
-                json.dump({"grammar_path": gp, "settings": api_settings(v), "out_dir": out, "out_dir_actions": out,
-                           "result_path": os.path.join(d, "res.json")}, open(rq, "w"))
+                json.dump({"grammar_path": gp, "settings": api_settings(v, minimal=rep % 2 == 1), "out_dir": out,
+                           "out_dir_actions": out, "result_path": os.path.join(d, "res.json")}, open(rq, "w"))
                 r = subprocess.run([run.vhist_bin(), "api", rq], capture_output=True, text=True,
                                    env=run.clean_env(), timeout=120)
                 res = json.load(open(os.path.join(d, "res.json"))) if os.path.exists(os.path.join(d, "res.json")) \
@@ -2569,7 +2683,7 @@ def coverage(prop, res, stage_names):
                                                    "ntables", "maxlen", "wall", "nambiguous", "ninscope", "nlrglr",
                                                    "ncells_exercised", "ngrammars_with_conflicts",
                                                    "mc_lex_configurations", "mc_lex_ok", "nmulti_survivors",
-                                                   "outcomes", "mc_pipeline_ok", "mc_regen_ok", "nregenerations", "nkeys", "nsugar_uses", "nrejected", "programs", "nqueries", "nruns", "npaired", "ngenerated", "nshapes", "ncombos", "nmodel_runs", "npartial", "nlayout_twins", "nautomata_reproduced", "maxstates", "nreplayed", "nbehaviours") if k in r}
+                                                   "outcomes", "mc_pipeline_ok", "mc_regen_ok", "nregenerations", "nkeys", "nsugar_uses", "nrejected", "programs", "nqueries", "nruns", "npaired", "ngenerated", "nshapes", "ncombos", "nmodel_runs", "npartial", "nlayout_twins", "nautomata_reproduced", "ntwins", "npath", "maxstates", "nreplayed", "nbehaviours") if k in r}
         cov["per_stage"][st]["divergences"] = len(r.get("divergences", []))
         b = {}
         for k2 in ("maxlen", "maxstates", "ncases", "ntables", "nshapes", "ncombos"):
